@@ -114,6 +114,30 @@ func tweak(g *gen.G, v interface{}) interface{} {
 
 // runRand writes n random ordered pairs with the sign bsonkit.Compare gives them and checks the order laws on
 // random triples of the real function.
+// aliased returns a shorter value that shares its memory with v (a prefix re-slice of an array or document, at the top
+// or one level down), as the library's own array operators produce them: values are compared by content, never by
+// where they are stored.
+func aliased(v interface{}) interface{} {
+	switch x := v.(type) {
+	case bson.A:
+		if len(x) > 0 {
+			return x[:len(x)-1]
+		}
+	case bson.D:
+		for i, e := range x {
+			if a, ok := e.Value.(bson.A); ok && len(a) > 0 {
+				c := append(bson.D{}, x...)
+				c[i].Value = a[:len(a)-1]
+				return c
+			}
+		}
+		if len(x) > 0 {
+			return x[:len(x)-1]
+		}
+	}
+	return v
+}
+
 func runRand(dir string, seed int64, n int) {
 	g := gen.New(seed)
 	t := enc.NewTable()
@@ -145,6 +169,8 @@ func runRand(dir string, seed int64, n int) {
 			r = g.Value(2, g.P(30))
 		case x < 5:
 			r = l
+		case x < 6:
+			r = aliased(l)
 		default:
 			r = tweak(g, l)
 		}
